@@ -193,6 +193,20 @@ def all_jobs():
                   props=['C01', 'C08'], pretty='bloc::FunctorManager::createEnv (functions without parameters)', canaries=['normal', 'exceptional'], unwind=2, defines=['JOB_NO_PARAMS'],
                   unwind_why='the binding loop runs over an empty parameter list (precondition): one test of its condition is complete',
                   structs=DEFAULT_STRUCTS + [STD_STRING, 'bloc::FunctorManager', 'bloc::FunctorManager::Entry', 'bloc::FunctorManager::Env', 'bloc::Functor', 'bloc::Context', 'bloc::VariableExpression', 'bloc::Symbol']))
+    # ---- C11: rollback of a rejected text ----
+    mg = '_ZN4bloc7Context10parsingEndEv'
+    J.append(dict(id='ctx_parsingEnd', src='blocc/context.cpp', contract='ctx_parsing.c', enforce=mg, roots=[mg], replace=[], cut=[],
+                  props=['C01', 'C11'], pretty='bloc::Context::parsingEnd', canaries=['normal'], unwind=6, bounded_inputs=True,
+                  unwind_why='backup list of at most 3 entries over a table of 2 symbols',
+                  structs=DEFAULT_STRUCTS + [STD_STRING, 'bloc::Context', 'bloc::Symbol', 'bloc::Context::MemorySlot',
+                                             '__gnu_cxx::__normal_iterator<bloc::Symbol const*, std::vector<bloc::Symbol, std::allocator<bloc::Symbol> > >',
+                                             '__gnu_cxx::__normal_iterator<bloc::Symbol*, std::vector<bloc::Symbol, std::allocator<bloc::Symbol> > >']))
+    for fn, mg in (('rollback', '_ZN4bloc14FunctorManager8rollbackEv'),
+                   ('createOrReplace', '_ZN4bloc14FunctorManager15createOrReplaceERKNSt7__cxx1112basic_stringIcSt11char_traitsIcESaIcEEERKSt6vectorINS_6SymbolESaISA_EE')):
+        J.append(dict(id='fm_' + fn, src='blocc/functor_manager.cpp', contract='fm_rollback.c', enforce=mg, roots=[mg], replace=[], cut=[],
+                      props=['C01', 'C11'], pretty='bloc::FunctorManager::' + fn, canaries=['normal'], unwind=6, bounded_inputs=True, defines=['JOB_' + fn.upper()],
+                      unwind_why='declaration list of at most 3 functions',
+                      structs=DEFAULT_STRUCTS + [STD_STRING, 'bloc::FunctorManager', 'bloc::FunctorManager::Entry', 'bloc::Functor', 'bloc::Context', 'bloc::Symbol']))
     return J
 
 def known_findings():
